@@ -8,6 +8,7 @@ written while the token is held; mutual exclusion itself is the (assumed) contra
 Trusted; not verified."""
 import asyncio
 import os
+import sys
 
 from . import sym
 from .sym import Unsupported
@@ -16,7 +17,13 @@ from .values import SObj
 
 
 class World:
-    """ghost record of the interaction of one coroutine with its environment"""
+    """ghost record of the interaction of one coroutine with its environment.
+
+    The same models serve both modes.  Symbolic mode: the coroutine body is interpreted by pyvc, an `await` of a model
+    is `resolve()`.  Native mode (replay / CPython cross-check): the REAL coroutine is driven by CPython
+    (`coro.send(None)`); the asyncio / os names the drivers use are patched for the duration of the run so that they
+    hand out the same models, whose awaitables complete synchronously - the environment acts exactly at the awaits,
+    as in the symbolic run, and the decisions (cancel here? time out? write fails?) are read from the counter-model."""
 
     def __init__(self, ctx, interp, cancel=False, io_faults=False):
         self.ctx = ctx
@@ -29,39 +36,48 @@ class World:
         self.cancelled_at = None
         self.hooks = {}                 # primitive-specific environment steps
         self.tasks = []
-        self.native_feeders = []
+        self.native_patches = None      # (class table, function table) installed by install()
+        self.native_contracts = {}      # "module:Class.method" -> contract function (coroutine callees)
+        self.extra_patches = {}         # further os / asyncio entry points modelled by a proof unit
 
-    # ------------------------------------------------------------------ polymorphic constructors
+    def patch(self, real, model):
+        """model(interp, *args) stands for the external function `real` during this unit (both modes)"""
+        if self.native:
+            self.extra_patches[real] = model
+        else:
+            self.interp.local_function_models[real] = model
+
+    # ------------------------------------------------------------------ mode-independent helpers
     @property
     def native(self):
         return bool(getattr(self.ctx, "native", False))
 
-    def event(self, flag=False, name="event"):
+    def choice(self, hint):
+        """a nondeterministic decision of the environment: forked symbolically, read from the counter-model natively"""
+        b = self.ctx.fresh_bool(hint)
         if self.native:
-            e = asyncio.Event()
-            if flag:
-                e.set()
-            return e
+            return bool(b)
+        return self.ctx.fork(b.e)
+
+    def throw(self, cls, *args):
+        if self.native:
+            raise cls(*args)
+        raise RaiseEx(SObj(cls, {"args": tuple(args)}))
+
+    # ------------------------------------------------------------------ constructors
+    def event(self, flag=False, name="event"):
         return MEvent(self, flag, name)
 
-    def lock(self, name="lock"):
-        return asyncio.Lock() if self.native else MLock(self, name)
+    def lock(self, name="lock", held=False):
+        return MLock(self, name, held)
 
     def semaphore(self, value=1, name="semaphore"):
-        return asyncio.BoundedSemaphore(value) if self.native else MSemaphore(self, value, name)
+        return MSemaphore(self, value, name)
 
     def queue(self, name="queue", items=(), provider=None):
-        if self.native:
-            q = asyncio.Queue()
-            for x in items:
-                q.put_nowait(x)
-            self.native_feeders.append((q, provider))
-            return q
         return MQueue(self, name, items, provider)
 
     def transport(self, name="transport"):
-        if self.native:
-            return NativeTransport(self, name)
         return MTransport(self, name)
 
     def mapping(self):
@@ -71,7 +87,7 @@ class World:
     def seq_source(self, value):
         return iter([value] * 4) if self.native else _SeqSource(value)
 
-    def run(self, fn, *args, timeout=0.05, feeder=None, **kwargs):
+    def run(self, fn, *args, contracts=(), **kwargs):
         """run the coroutine function under verification:
         ("return", v) | ("raise", cls, exc, where) | ("blocked",)"""
         if not self.native:
@@ -81,47 +97,88 @@ class World:
                 return ("blocked",)
             except RaiseEx as e:
                 return ("raise", e.cls, e.value, e.where)
-        return self.run_native(fn, args, kwargs, timeout, feeder)
+        return self.run_native(fn, args, kwargs)
 
-    def run_native(self, fn, args, kwargs, timeout, feeder):
-        """replay: the real coroutine is run by asyncio; os.write is captured, nothing else is patched"""
+    def run_native(self, fn, args, kwargs):
+        """replay: CPython runs the real coroutine; the asyncio / os entry points are the models"""
+        import contextlib
         import unittest.mock as mock
-        world = self
-
-        def fake_write(fd, data):
-            world.writes.append((fd, bytes(data)))
-            return len(data)
-
-        async def main():
-            tasks = []
-            if feeder is not None:
-                tasks.append(asyncio.ensure_future(feeder()))
+        with contextlib.ExitStack() as st:
+            if self.native_patches is not None:
+                table, funcs = self.native_patches
+                for real, model in table.items():
+                    st.enter_context(mock.patch.object(asyncio, real.__name__,
+                                                       (lambda m: (lambda *a, **k: m(None, *a, **k)))(model)))
+                for real, model in list(funcs.items()) + list(self.extra_patches.items()):
+                    name = getattr(real, "__name__", None)
+                    wrapper = (lambda m: (lambda *a, **k: m(None, *a, **k)))(model)
+                    for owner in (os, asyncio):
+                        if name and getattr(owner, name, None) is real:
+                            st.enter_context(mock.patch.object(owner, name, wrapper))
+                            break
+                    # methods of asyncio.Queue work natively on the real subclass objects: not patched
+            for key, cfn in self.native_contracts.items():
+                mod, qual = key.split(":")
+                owner = sys.modules[mod]
+                parts = qual.split(".")
+                for p_ in parts[:-1]:
+                    owner = getattr(owner, p_)
+                st.enter_context(mock.patch.object(owner, parts[-1], _as_coroutine(cfn)))
             try:
-                return ("return", await asyncio.wait_for(fn(*args, **kwargs), timeout))
-            except asyncio.TimeoutError:
+                if asyncio.iscoroutinefunction(fn):
+                    return ("return", drive(fn(*args, **kwargs)))
+                return ("return", fn(*args, **kwargs))
+            except PathEnd:
                 return ("blocked",)
-            except asyncio.CancelledError:
-                return ("raise", asyncio.CancelledError, None, "native")
+            except RaiseEx as e:
+                return ("raise", e.cls, e.value, e.where)
+            except asyncio.CancelledError as e:
+                return ("raise", asyncio.CancelledError, e, "native")
             except Exception as e:      # noqa: BLE001
                 return ("raise", type(e), e, "native")
-            finally:
-                for t in tasks:
-                    t.cancel()
-        with mock.patch("os.write", fake_write), mock.patch("os.close", lambda fd: None):
-            return asyncio.run(main())
 
     def cancel_point(self, what):
         self.awaits += 1
         if self.cancel and self.cancelled_at is None:
-            if self.ctx.fork(self.ctx.fresh_bool("cancel_at_await").e):
+            if self.choice("cancel_at_await"):
                 self.cancelled_at = (self.awaits, what)
-                raise RaiseEx(SObj(asyncio.CancelledError, {"args": ()}))
+                self.throw(asyncio.CancelledError)
+
+
+def drive(coro):
+    """run a real coroutine whose awaits all complete synchronously (they are models)"""
+    try:
+        coro.send(None)
+    except StopIteration as e:
+        return e.value
+    coro.close()
+    raise Unsupported("native run: the coroutine suspended on a real awaitable")
+
+
+def _as_coroutine(cfn):
+    async def stub(*a, **k):
+        return cfn(*a, **k)
+    return stub
 
 
 class Awaitable:
     def __init__(self, resolve, what="awaitable"):
         self.resolve = resolve
         self.what = what
+
+    def __await__(self):
+        # native mode: completes synchronously (never yields to an event loop)
+        return self.resolve()
+        yield       # pragma: no cover  (makes this a generator function)
+
+
+class _AsyncCM:
+    async def __aenter__(self):
+        return self.aenter()
+
+    async def __aexit__(self, *exc):
+        self.aexit()
+        return False
 
 
 class MEvent:
@@ -154,7 +211,7 @@ class MEvent:
         return Awaitable(resolve, "Event.wait")
 
 
-class MLock:
+class MLock(_AsyncCM):
     """asyncio.Lock as a ghost token of *this* task.  While this task does not hold the token some other task may
     (that is why acquire can wait at all): locked() then answers nondeterministically - fixed between two awaits,
     because only an await lets another task run - and a release() without the token either hits another task's
@@ -172,8 +229,7 @@ class MLock:
     def _held_by_another(self):
         ep = self.world.awaits
         if self._other is None or self._other[0] != ep:
-            c = self.world.ctx
-            self._other = (ep, bool(c.fork(c.fresh_bool("lock_held_by_another_task").e)))
+            self._other = (ep, bool(self.world.choice("lock_held_by_another_task")))
         return self._other[1]
 
     def locked(self):
@@ -200,7 +256,7 @@ class MLock:
                 self.violations.append("release of a lock held by another task")
                 self._other = (self.world.awaits, False)
                 return
-            raise RaiseEx(RuntimeError("Lock is not acquired."))
+            self.world.throw(RuntimeError, "Lock is not acquired.")
         self.held = False
 
     def aenter(self):
@@ -210,7 +266,7 @@ class MLock:
         self.release()
 
 
-class MSemaphore:
+class MSemaphore(_AsyncCM):
     def __init__(self, world, value=1, name="semaphore", bounded=True):
         self.world = world
         self.initial = value
@@ -232,7 +288,7 @@ class MSemaphore:
 
     def release(self):
         if self.held <= 0 and self.bounded:
-            raise RaiseEx(ValueError("BoundedSemaphore released too many times"))
+            self.world.throw(ValueError, "BoundedSemaphore released too many times")
         self.held -= 1
 
     def aenter(self):
@@ -264,7 +320,7 @@ class MQueue:
 
     def get_nowait(self):
         if not self.items:
-            raise RaiseEx(asyncio.QueueEmpty())
+            self.world.throw(asyncio.QueueEmpty)
         return self.items.pop(0)
 
     def get(self):
@@ -314,19 +370,9 @@ class MTransport:
         self.loop = MLoop(world)
 
     def write(self, data):
-        if self.world.io_faults and self.world.ctx.fork(self.world.ctx.fresh_bool("write_fails").e):
-            raise RaiseEx(OSError("write failed"))
+        if self.world.io_faults and self.world.choice("write_fails"):
+            self.world.throw(OSError, "write failed")
         self.world.writes.append((self.name, data))
-
-
-class NativeTransport:
-    def __init__(self, world, name):
-        self.world = world
-        self.name = name
-        self.loop = None
-
-    def write(self, data):
-        self.world.writes.append((self.name, bytes(data)))
 
 
 class _SeqSource:
@@ -344,8 +390,6 @@ class _SeqSource:
 def install(interp, world):
     """route the real asyncio / os entry points used by the drivers to the models (for this interpreter only)"""
     from . import models
-    if world.native:
-        return
 
     def m_event(interp_, *a, **k):
         return MEvent(world, name="local-event-%d" % len(world.log))
@@ -369,29 +413,36 @@ def install(interp, world):
     def m_wait_for(interp_, aw, timeout=None):
         def resolve():
             world.log.append(("wait_for", timeout, getattr(aw, "what", "?")))
-            if world.ctx.fork(world.ctx.fresh_bool("timeout").e):
+            if world.choice("timeout"):
                 world.cancel_point("wait_for")
-                raise RaiseEx(SObj(asyncio.TimeoutError, {"args": ()}))
+                if world.native and asyncio.iscoroutine(aw):
+                    aw.close()
+                world.throw(asyncio.TimeoutError)
             try:
+                if world.native:
+                    return aw.resolve() if isinstance(aw, Awaitable) else drive(aw)
                 return interp_.do_await(aw)
             except PathEnd:
                 # the awaited operation never completes: the timer fires
                 world.cancel_point("wait_for")
-                raise RaiseEx(SObj(asyncio.TimeoutError, {"args": ()}))
+                world.throw(asyncio.TimeoutError)
         return Awaitable(resolve, "wait_for")
 
     def m_create_task(interp_, coro, **k):
         t = MTask(world, coro)
         world.tasks.append(t)
-        world.log.append(("create_task", getattr(getattr(coro, "func", None), "__qualname__", repr(coro))))
+        fn_name = getattr(getattr(coro, "func", None), "__qualname__", None) or getattr(coro, "__qualname__", repr(coro))
+        world.log.append(("create_task", fn_name))
+        if world.native and asyncio.iscoroutine(coro):
+            coro.close()        # the model does not run spawned tasks
         return t
 
     def m_loop(interp_):
         return MLoop(world)
 
     def m_os_write(interp_, fd, data):
-        if world.io_faults and world.ctx.fork(world.ctx.fresh_bool("write_fails").e):
-            raise RaiseEx(OSError("write failed"))
+        if world.io_faults and world.choice("write_fails"):
+            world.throw(OSError, "write failed")
         world.writes.append((fd, data))
         return len(data) if hasattr(data, "__len__") else 0
 
@@ -419,6 +470,9 @@ def install(interp, world):
         q.fields.setdefault("_delivered", [])
 
     funcs[asyncio.Queue.__init__] = m_queue_init
+    if world.native:
+        world.native_patches = (table, funcs)
+        return
     funcs[asyncio.Queue.put_nowait] = m_queue_put_nowait
     funcs[asyncio.Queue.qsize] = m_queue_qsize
     interp.local_class_models = table
